@@ -18,7 +18,7 @@ PROP = "C13"
 LEVEL = "exploration"
 SHARDS = {"quick": 8, "thorough": 16}
 TIMEOUT = {"quick": 1500, "thorough": 10800}
-REQUIRED = {"seq.event": 3000, "thr.event": 1500, "root_unchanged": 100, "concat": 100, "generator": 200}
+REQUIRED = {"seq.event": 3000, "thr.event": 1500, "preempt.event": 800, "root_unchanged": 100, "concat": 100, "generator": 200}
 ANCHORS = ['base_wallet:BaseWallet.by_path', 'base_wallet:BaseWallet.address_generator', 'bip32:PrvKeyNode.ckd', 'bip32:PubKeyNode.ckd', 'bip32:PubKeyNode.generate_children', 'bip32:PubKeyNode.derive_path', 'base_wallet:BaseWallet.node_extended_keys', 'paper_wallet:PaperWallet.generate']
 RULE = ("random programs of 50-500 API calls (by_path, ckd, generate_children, derive_path, address generator next/send, five "
         "address kinds, node_extended_keys, extended keys, str, fingerprint, BIP85, generate/json/wasabi_json) over a pool of "
@@ -578,12 +578,231 @@ def threaded(ctx, holder, n_runs, tag, only=None, seed=None, shard=None):
         ctx.note_inconclusive("no thread switch was observed inside btc_hd_wallet code")
 
 
+# ------------------------------------------------------------------ systematic single-preemption exploration
+PREEMPT_FILES = ("bip32", "base_wallet", "paper_wallet", "bip85", "wallet_utils")
+
+
+class Preempter:
+    """Deterministic scheduler for two threads: thread A runs operation a; at its k-th LINE event inside btc_hd_wallet
+    (anchor files only) it is parked, thread B runs operation b to completion, then A resumes.  k = None: never park
+    (used to count A's statements).  This enumerates EVERY single-preemption interleaving of (a, b) at statement
+    granularity instead of sampling them."""
+    TOOL = 5
+
+    def __init__(self, k):
+        self.k = k
+        self.count = 0
+        self.a_ident = None
+        self.go_b = threading.Event()
+        self.b_done = threading.Event()
+        self.parked_at = None
+        self.prefix = inject._repo_prefix()
+
+    def start(self):
+        import os
+        mon = sys.monitoring
+        mon.use_tool_id(self.TOOL, "vp-preempt")
+
+        def cb(code, line):
+            fn = code.co_filename
+            if not fn.startswith(self.prefix) or os.path.basename(fn)[:-3] not in PREEMPT_FILES:
+                return mon.DISABLE
+            if threading.get_ident() != self.a_ident:
+                return None
+            self.count += 1
+            if self.k is not None and self.count == self.k:
+                self.parked_at = "%s:%d" % (code.co_name, line)
+                self.go_b.set()
+                self.b_done.wait(60)
+            return None
+        mon.register_callback(self.TOOL, mon.events.LINE, cb)
+        mon.set_events(self.TOOL, mon.events.LINE)
+        mon.restart_events()
+
+    def stop(self):
+        mon = sys.monitoring
+        mon.set_events(self.TOOL, 0)
+        mon.register_callback(self.TOOL, mon.events.LINE, None)
+        mon.free_tool_id(self.TOOL)
+
+
+def _preempt_ops(world, rnd_seed):
+    """Menu of operations on SHARED objects; each returns a list of (label, ok, expected, observed)."""
+    import random as _random
+    w = world
+    wal = w.wallets["prv"]
+    pubw = w.wallets["pub"]
+
+    def node_ok(node, wid, path):
+        exp = w.ref(wid, path)
+        bad = bridge.compare_node(node, exp, w.net[wid], w.private(wid))
+        if str(node) != rpath.fmt(path, w.mark(wid)):
+            bad.append(("str", rpath.fmt(path, w.mark(wid)), str(node)))
+        return (not bad, exp.fields(), bad)
+
+    def op_ckd(wid, i):
+        def f():
+            n = w.wallets[wid].master.ckd(index=i)
+            return [("ckd(%d)" % i,) + node_ok(n, wid, (i,))]
+        return f
+
+    def op_gen(wid, s, e):
+        def f():
+            kids = w.wallets[wid].master.generate_children(interval=(s, e))
+            out = [("generate_children.count", len(kids) == e - s, e - s, len(kids))]
+            for j, kd in enumerate(kids[:e - s]):
+                out.append(("generate_children[%d]" % j,) + node_ok(kd, wid, (s + j,)))
+            return out
+        return f
+
+    def op_by_path(wid, path):
+        def f():
+            n = w.wallets[wid].by_path(rpath.fmt(path, "m"))
+            return [("by_path",) + node_ok(n, wid, tuple(path))]
+        return f
+
+    def op_derive(wid, path):
+        def f():
+            n = w.wallets[wid].master.derive_path(index_list=list(path))
+            return [("derive_path",) + node_ok(n, wid, tuple(path))]
+        return f
+
+    def op_addrgen(wid, kind, steps):
+        def f():
+            wl = w.wallets[wid]
+            g = wl.address_generator(wl.master, getattr(wl, kind + "_address"))
+            out, idx = [], None
+            for st in steps:
+                idx = 0 if idx is None else idx + (st or 1)
+                got = next(g) if not st else g.send(st)
+                want = (rpath.fmt((idx,), w.mark(wid)), exp_address(w, wid, (idx,), kind))
+                out.append(("address_generator@%d" % idx, tuple(got) == want, want, got))
+            return out
+        return f
+
+    def op_bip85(which, i):
+        def f():
+            b = wal.bip85
+            m = w.refroot["prv"]
+            got, want = (b.wif(index=i), rb85.wif(m, i)) if which == "wif" else (b.hex(num_bytes=32, index=i), rb85.hex_(m, 32, i))
+            return [("bip85." + which, got == want, want, got)]
+        return f
+
+    def op_ext_keys(wid):
+        def f():
+            n = w.wallets[wid].master.ckd(index=1)
+            got = w.wallets[wid].node_extended_keys(n)
+            ref = w.ref(wid, (1,))
+            want = {"path": rpath.fmt((1,), w.mark(wid)), "pub": ref.xpub(rb32.version_for("pub", w.net[wid], 44)),
+                    "prv": ref.xprv(rb32.version_for("prv", w.net[wid], 44)) if w.private(wid) else None}
+            return [("node_extended_keys", got == want, want, got)]
+        return f
+
+    def op_group():
+        def f():
+            keys, rows = wal.bip84(account=0, interval=(0, 2))
+            want = rpaper.group(w.refroot["prv"], 84, w.net["prv"], 0, 0, 2)
+            return [("bip84", keys == want["account_extended_keys"] and rows == want["groups"], want["groups"][:1], rows[:1])]
+        return f
+    return {
+        "ckd_n": op_ckd("prv", 2), "ckd_h": op_ckd("prv", H + 2), "ckd_pub": op_ckd("pub", 2),
+        "gen": op_gen("prv", 0, 4), "gen_pub": op_gen("pub", 1, 4), "by_path": op_by_path("prv", [44 + H, 0, 3]),
+        "derive": op_derive("prv", [2, 7]), "derive_pub": op_derive("pub", [2, 7]),
+        "addrgen": op_addrgen("prv", "p2wpkh", [0, 0, 3]), "addrgen_pub": op_addrgen("pub", "p2pkh", [0, 2]),
+        "bip85_wif": op_bip85("wif", 0), "bip85_hex": op_bip85("hex", 1), "ext_keys": op_ext_keys("prv"), "bip84": op_group(),
+    }
+
+
+def preemption_sweep(ctx, holder, pairs, tag, stride=1):
+    import random as _random
+    total_points = 0
+    parked = {}
+    for pi, (an, bn) in enumerate(pairs):
+        # 1. how many statements does `a` execute alone?
+        def build():
+            world = World(_random.Random("C13/preempt/%s/%s" % (an, bn)), "pre:%s|%s" % (an, bn))
+            holder["world"] = world
+            return world, _preempt_ops(world, 0)
+        world, ops = build()
+        pre = Preempter(None)
+        pre.a_ident = threading.get_ident()
+        pre.start()
+        try:
+            ops[an]()
+        finally:
+            pre.stop()
+        n_lines = pre.count
+        world, ops = build()          # one world per pair: the shared objects also accumulate the history of earlier interleavings
+        for k in range(1, n_lines + 1, stride):
+            pre = Preempter(k)
+            res = {}
+            errs = []
+
+            def run_a():
+                pre.a_ident = threading.get_ident()
+                try:
+                    res["a"] = ops[an]()
+                except BaseException as e:  # noqa
+                    errs.append(("a", e))
+                finally:
+                    pre.go_b.set()
+
+            def run_b():
+                pre.go_b.wait(60)
+                try:
+                    res["b"] = ops[bn]()
+                except BaseException as e:  # noqa
+                    errs.append(("b", e))
+                finally:
+                    pre.b_done.set()
+            ta, tb = threading.Thread(target=run_a), threading.Thread(target=run_b)
+            pre.start()
+            try:
+                tb.start()
+                ta.start()
+                ta.join(120)
+                tb.join(120)
+            finally:
+                pre.stop()
+            if ta.is_alive() or tb.is_alive():
+                ctx.note_inconclusive("preemption scenario %s|%s@%d did not finish" % (an, bn, k))
+                return
+            total_points += 1
+            if pre.parked_at:
+                parked[pre.parked_at] = parked.get(pre.parked_at, 0) + 1
+            case = {"world": "pre:%s|%s" % (an, bn), "a": an, "b": bn, "preempt_at_statement": k, "site": pre.parked_at}
+            for who, e in errs:
+                ctx.judge("preempt.event", False, dict(case, thread=who), "result", e, cls="pre|%s|%s|raised" % (an, bn), mech="C13.preempt.raised")
+            for who in ("a", "b"):
+                for label, ok, want, got in res.get(who, []):
+                    ctx.judge("preempt.event", ok, dict(case, thread=who, op=label), want, got, cls="pre|%s|%s" % (an, bn),
+                              mech="C13.preempt." + label.split("(")[0].split("[")[0].split("@")[0])
+        quiescent_checks(ctx, world, "pre")
+    ctx.extra["preempt_interleavings_enumerated"] = ctx.extra.get("preempt_interleavings_enumerated", 0) + total_points
+    sites = ctx.extra.setdefault("preempt_sites", {})
+    for k2, v in parked.items():
+        sites[k2] = sites.get(k2, 0) + v
+
+
+def preempt_pairs(ctx):
+    names = ["ckd_n", "ckd_h", "ckd_pub", "gen", "gen_pub", "by_path", "derive", "derive_pub", "addrgen", "addrgen_pub",
+             "bip85_wif", "bip85_hex", "ext_keys", "bip84"]
+    pairs = [(a, b) for a in names for b in names]
+    if not ctx.thorough:
+        # quick: every operation is the preempted one at least once and the preempting one at least once
+        pairs = [("gen", "ckd_n"), ("ckd_n", "gen"), ("gen", "gen"), ("ckd_h", "ckd_n"), ("addrgen", "ckd_n"), ("by_path", "gen"),
+                 ("derive", "ckd_n"), ("gen_pub", "ckd_pub"), ("ckd_pub", "gen_pub"), ("addrgen_pub", "gen_pub"), ("bip85_wif", "gen"),
+                 ("gen", "bip85_wif"), ("ext_keys", "ckd_n"), ("bip84", "by_path"), ("derive_pub", "ckd_pub"), ("bip85_hex", "bip85_wif")]
+    return [p for i, p in enumerate(pairs) if ctx.mine(i)]
+
+
 def run(ctx):
     holder = {}
     inst = install_probes(ctx, holder)
     try:
         sequential(ctx, holder, ctx.scale(64, 6000), "w")
         threaded(ctx, holder, ctx.scale(32, 1600), "w")
+        preemption_sweep(ctx, holder, preempt_pairs(ctx), "w", stride=1)
     finally:
         inst.remove()
 
@@ -597,7 +816,10 @@ def replay(ctx, monitor, case):
     try:
         tag = (case or {}).get("world", "") if isinstance(case, dict) else ""
         parts = tag.split(":")
-        if len(parts) == 5 and parts[0] in ("seq", "thr"):
+        if tag.startswith("pre:"):
+            an, bn = tag[4:].split("|")
+            preemption_sweep(ctx, holder, [(an, bn)], "replay")
+        elif len(parts) == 5 and parts[0] in ("seq", "thr"):
             mode, seed, shard, p, tier = parts[0], int(parts[1]), int(parts[2]), int(parts[3]), parts[4]
             ctx.tier = tier
             if mode == "seq":
